@@ -236,6 +236,7 @@ def run(prog, chk):
     prolog_token_start(chk, "C16.g", pa)
     look_behind(prog, chk, "C16.i", ("Xml.cpp",))
     references_after_escaping(prog, chk, "C16.j")
+    lookahead_rewound(prog, chk, "C16.l")
     from .. import balance
     balance.check(prog, chk, "C16.k", [f for f in prog.functions.values() if f.file.endswith("Xml.cpp") and (f.cls or "").startswith("Xml::Private")], "Xml::Private")
     chk.rule("C16.h", "MPT: every cursor / line field the tokenizer advances is set again in Private::parse before the first tokenizer call (a Parser is reused across documents)", floor=2)
@@ -555,3 +556,39 @@ def references_after_escaping(prog, chk, rid):
                 chk.ok(rid, f, "reference %s inserted into the escaped value `%s`" % (bytes(lits[0].get("bytes") or []).decode("latin1"), vn), f.where(c), "reaching definition is escapeString(..), no later escaping", evals=2)
     if not n:
         raise AnalysisBroken("no replace() introducing a character reference found in Xml.cpp")
+
+
+def lookahead_rewound(prog, chk, rid):
+    """parseElement looks ahead with readToken() to tell a tag from text.  readToken() skips white space (and may fail on text such as
+    " /x"): whatever the look-ahead did, the text has to be read from the saved position - on every outcome, not only the successful one"""
+    chk.rule(rid, "MPT: in the content loop of parseElement every path from the look-ahead readToken() to parseText() passes the store that "
+                  "puts the cursor back to the position saved before the look-ahead", floor=1)
+    f = xfn(prog, X + "parseElement")
+    def saved_what(d):
+        t = q.no_casts(f.r(d["init"])).replace("copy(", "").rstrip(")")
+        return t if t in ("this->pos", "this->pos.pos") else None
+    saves = [(n["i"], d) for n in f.nodes if n["k"] == "DeclStmt" for d in n["decls"] if d.get("init") is not None and
+             saved_what(d) and C.loop_blocks(f, n["i"])]
+    texts = [c for c in q.calls(f) if (f.nodes[c].get("callee") or "").endswith("::parseText")]
+    if not texts:
+        raise AnalysisBroken("parseElement: parseText call not found")
+    if not saves:
+        chk.bad(rid, f, "lookahead-position-not-saved", "%s:%s" % (f.file, f.line),
+                "the content loop does not save the cursor before its look-ahead: text cannot be read from where the look-ahead started")
+        return
+    for decl, d in saves:
+        looks = [c for c in q.calls(f) if (f.nodes[c].get("callee") or "").endswith("::readToken") and f.dominates_pos(f.node_pos(decl), f.node_pos(c)) and
+                 C.loop_blocks(f, c) and f.find_path(f.node_pos(decl), {f.node_pos(c)}, avoid=q.pos_of(f, texts)) is not None]
+        looks = [c for c in looks if not any(o != c and o in looks and f.dominates_pos(f.node_pos(o), f.node_pos(c)) for o in looks)][:1]
+        restores = [st.node for st in q.stores(f) if q.no_casts(f.r(st.lhs)) == saved_what(d) and st.rhs is not None and
+                    q.no_casts(f.r(st.rhs)).replace("copy(", "").rstrip(")") == d["n"]]
+        for c in looks:
+            for t in texts:
+                pth = f.find_path(f.node_pos(c), {f.node_pos(t)}, avoid=q.pos_of(f, restores) | {f.node_pos(decl)})
+                if pth is not None:
+                    chk.bad(rid, f, "text-read-after-unrewound-lookahead", f.where(t),
+                            "a path (lines %s) reaches parseText() after the look-ahead readToken() without `this->pos = %s`: when the "
+                            "look-ahead fails (text like \" /x\" - a '/' that does not start '/>') the white space it skipped is lost from "
+                            "the text node" % (f.path_lines(pth)[:8], d["n"]), evals=2)
+                else:
+                    chk.ok(rid, f, "text is read from the position saved before the look-ahead", f.where(t), "MPT through `this->pos = %s`" % d["n"], evals=2)
